@@ -9,6 +9,8 @@ import NdnModel.NfdMgmt
                           DigestSha256Signer(for_interest=True))`
   * `legacyCommandName` = `make_command(module, command, face, **kwargs)` (the deprecated signed-name format)
   * `parseResponse`   = `parse_response(buf)`, from the wire down to the dict
+  * `runW`            = the composed model: the registration state machine of `Ndn.NfdMgmt` between the bytes that
+                        come back (`replyOfData`) and the command Interest wires it puts on the face (`wiresFrom`)
 
   The model classes of nfd_mgmt.py are written here as schemas; `Ndn.Gen.C17` regenerates them from the live
   classes on every run and `Ndn.C17.gen_schemas` checks that they are the same.
@@ -168,5 +170,132 @@ def encodeResponse (code : Option Nat) (text : Option Bytes) (body : Option (Lis
 
 /-- what the dict shows for one decoded field value -/
 def dvalOf (v : Value) : DVal := DVal.ofF (fvalOf v)
+
+
+/-! ### the composed model: from the call to the bytes on the face, and from the bytes that come back to the result
+
+  `Ndn.NfdMgmt.run` sees `(verb, prefix, signed timestamp)` and reply kinds.  Here its trace is turned into the
+  command Interest WIRES the front-end in use puts on the face (`wiresFrom`: `make_command_v2` + `make_interest`
+  with the DigestSha256 signer for `NfdRegister`; `make_command` + a plain `make_interest` for the legacy `NDNApp`;
+  both through `express` with `lifetime=1000` and a fresh 32-bit Nonce), and what it consumes are reply WIRES
+  (`WEv.data`: the bytes of a Data packet answering the command in flight, any byte string; Nack, timeout and
+  shutdown stay events).  `replyOfData` is what the receive path (`parse_data`, the validator of the front-end,
+  `parse_response`) makes of such bytes, with the decoder models of C07/C08. -/
+
+/-- what a run needs besides the clock: the hash, the face, the prefixes the calls name, and the random numbers
+    drawn for the k-th command (recorded from the real run by the harness) -/
+structure Wire where
+  H : Bytes → Bytes
+  isLocal : Bool
+  /-- the encoded components of the prefix a call names by its number -/
+  pfxName : Nat → List Bytes
+  /-- `gen_nonce()`: the Nonce of the k-th command Interest -/
+  nonce32 : Nat → Nat
+  /-- `gen_nonce_64()`: SignatureNonce (v2) / nonce component (legacy) of the k-th command -/
+  nonce64 : Nat → Nat
+
+/-- `InterestParam.from_dict({'lifetime': 1000, 'nonce': gen_nonce()})` -/
+def cmdMid (n32 : Nat) : List Value := [.none, .none, .none, .uint n32, .uint 1000, .none]
+
+/-- no ControlParameters keyword besides `name=` -/
+def noKw : List Value := List.replicate 15 .none
+
+/-- the wire of the k-th command: verb `v`, prefix number `p`, signed timestamp `ts` -/
+def cmdWire (w : Wire) (fe : FrontEnd) (k : Nat) (v : Verb) (p ts : Nat) : Except PyErr Bytes :=
+  match fe with
+  | .v2 => do
+    let n ← ribCommandName w.isLocal v (w.pfxName p) noKw
+    let m ← commandInterestV2 w.H n (cmdMid (w.nonce32 k)) ts (w.nonce64 k)
+    pure m.wire
+  | .legacy => do
+    let n ← legacyCommandName w.H w.isLocal ribB (verbB v) (cpvOf (w.pfxName p) noKw) ts (w.nonce64 k)
+    let m ← makeInterest w.H n (cmdMid (w.nonce32 k)) .none .none none
+    pure m.wire
+
+/-- the commands of a trace, in emission order -/
+def cmdsOf : List Out → List (Req × Nat)
+  | [] => []
+  | .cmd r ts :: t => (r, ts) :: cmdsOf t
+  | _ :: t => cmdsOf t
+
+/-- the wires of the commands of a trace, in emission order; `k` numbers the commands -/
+def wiresFrom (w : Wire) (fe : FrontEnd) : Nat → List Out → List (Except PyErr Bytes)
+  | _, [] => []
+  | k, .cmd r ts :: t => cmdWire w fe k r.verb r.pfx ts :: wiresFrom w fe (k + 1) t
+  | k, _ :: t => wiresFrom w fe k t
+
+/-- `sha256_digest_checker` on what `parse_data` reports: SignatureType DigestSha256, a covered range, a
+    signature value, and the value is the hash of the range -/
+def digestSigOk (H : Bytes → Bytes) (vs : List Value) (p : Ptrs) : Bool :=
+  match vs[8]? with
+  | some (Value.model (Value.uint 0 :: _)) =>
+    (match p.sigValue with
+     | some sv => !p.sigCovered.isEmpty && !sv.isEmpty && H (concatB p.sigCovered) == sv
+     | none => false)
+  | _ => false
+
+/-- the decoded ControlResponse of a reply Content, before the glue of `parse_response` -/
+def contentRec (content : Bytes) : Except PyErr ControlResponseRec := do
+  let v ← parseAndCheckTl content 0x65
+  let vs ← parse crFs false v
+  pure (recOfValues vs)
+
+/-- what the receive path makes of the bytes of a Data packet that answers the command in flight: `none` — not a
+    Data packet (`parse_data` refuses it; the receive loop drops it and nothing happens); otherwise the reply kind
+    the state machine sees: whether its DigestSha256 signature verifies, and what its Content decodes to -/
+def replyOfData (H : Bytes → Bytes) (wire : Bytes) : Option Reply :=
+  match parseData wire with
+  | .error _ => none
+  | .ok (vs, ptrs) =>
+    let ok := digestSigOk H vs ptrs
+    some (match bytesOf vs[7]? with
+      | none => .undecodable ok                         -- no Content: `parse_response(None)` raises TypeError
+      | some content =>
+        match contentRec content with
+        | .ok r => .response r.statusCode r.body.isSome ok
+        | .error _ => .undecodable ok)
+
+/-- events of the composed model -/
+inductive WEv where
+  | call (v : Verb) (pfx : Nat)
+  /-- the bytes of a Data packet that answers the command in flight — any byte string -/
+  | data (wire : Bytes)
+  | nack | timeout | canceled
+  | connect (routes : List Nat)
+  deriving DecidableEq, Repr, Inhabited
+
+def absEv (H : Bytes → Bytes) : WEv → Option Ev
+  | .call v p => some (.call v p)
+  | .data b => (replyOfData H b).map .reply
+  | .nack => some (.reply .nack)
+  | .timeout => some (.reply .timeout)
+  | .canceled => some (.reply .canceled)
+  | .connect rs => some (.connect rs)
+
+/-- the composed run: final state, trace of the state machine, and the wires it put on the face -/
+def runW (cfg : Cfg) (env : Env) (w : Wire) (s : St) (evs : List WEv) :
+    St × List Out × List (Except PyErr Bytes) :=
+  let r := run cfg env s (evs.filterMap (absEv w.H))
+  (r.1, r.2, wiresFrom w cfg.fe 0 r.2)
+
+/-- the timestamp a forwarder reads from a command Interest: SignatureTime (v2) / the sixth name component as a
+    big-endian number (legacy) -/
+def wireTs (fe : FrontEnd) (wire : Bytes) : Option Nat :=
+  match parseInterest wire with
+  | .error _ => none
+  | .ok (vs, _) =>
+    match fe with
+    | .v2 => (match vs[17]? with
+      | some (Value.model [_, _, _, Value.uint t, _]) => some t
+      | _ => none)
+    | .legacy => (match vs[7]? with
+      | some (Value.name cs) => cs[5]?.map fun c => beVal (compValue c)
+      | _ => none)
+
+/-- the name a forwarder reads from a command Interest -/
+def wireName (wire : Bytes) : Option (List Bytes) :=
+  match parseInterest wire with
+  | .ok (vs, _) => (match vs[7]? with | some (Value.name cs) => some cs | _ => none)
+  | .error _ => none
 
 end Ndn.NfdBytes
